@@ -569,6 +569,10 @@ class Slope(Sub):
         for n in lengths:
             for fy, fx in (('mag', 'alt'), ('cyc', 'mag'), ('alt', 'pos'), ('pos', 'cyc')):
                 yield ['lng', fy, fx, n]
+        # numerically delicate pairs: x (or y) of large magnitude and small spread
+        for n in (3, 5, 8, 13):
+            for fy, fx in (('alt', 'big'), ('cyc', 'huge'), ('big', 'alt'), ('huge', 'big')):
+                yield ['lng', fy, fx, n]
 
     def check(self, env, case):
         if case[0] == 'one':
@@ -576,10 +580,16 @@ class Slope(Sub):
         out = []
         if case[0] == 'lng':
             ys, xs = long_list(case[1], case[3]), long_list(case[2], case[3])
-            for form in ('a', 's'):
-                f = slope_one(env, form, ys, xs)
-                if f:
-                    out.append(f)
+            delicate = bool({'big', 'huge'} & {case[1], case[2]})
+            if delicate:
+                _REL[0] = 1e-6
+            try:
+                for form in ('a', 's'):
+                    f = slope_one(env, form, ys, xs)
+                    if f:
+                        out.append(f)
+            finally:
+                _REL[0] = 1e-9
             return out
         ys, pool, forms = case[1], (V if case[2] == 'V' else V4), case[3]     # pool of the x lists
         for xs in lists_over(pool, len(ys)):
